@@ -93,7 +93,7 @@ def classify_cond(test, tol, num):
             return "same_species"
         if isinstance(test.ops[0], ast.NotEq) and num in (norm(test.left), norm(test.comparators[0])):
             return "other_species"
-        if isinstance(test.ops[0], ast.Gt) and "len(" in norm(test.left) and norm(test.comparators[0]) == "0":
+        if isinstance(test.ops[0], ast.NotEq) and "len(" in norm(test.left) and norm(test.comparators[0]) == "0":  # emptiness normal form of the model
             return "found_any"
     return None
 
